@@ -6,4 +6,5 @@ MODULES = [
     "c02_compound",
     "c15_tables",
     "c16_bins",
+    "c18_features",
 ]
